@@ -911,6 +911,10 @@ class _Frame:
             raise self.bad(f"super().{n.func.attr} not found", n)
         args = [self.ev(a) for a in n.args]
         kwargs = {k.arg: self.ev(k.value) for k in n.keywords}
+        if self.I.call_hook is not None:
+            r = self.I.call_hook(f, args, kwargs)
+            if r is not NotImplemented:
+                return r
         return self.I.call_function(f, args, kwargs, self_obj=selfobj)
 
     def call(self, fn, args, kwargs, n):
@@ -1212,6 +1216,71 @@ _NP_FUNCS = {
     "ravel": lambda a: XArray.from_nested(a).ravel(),
     "where": lambda *a: _np_where(*a),
 }
+
+
+def _ints(a, what):
+    a = XArray.from_nested(a)
+    out = []
+    for x in a.data:
+        if isinstance(x, bool) or not isinstance(x, (int, Fraction)) or Fraction(x).denominator != 1:
+            raise XArrayError(f"np.{what} needs concrete integer data: outside the table grammar")
+        out.append(int(x))
+    return a, out
+
+
+def _np_argsort(a, axis=-1, kind=None, **kw):
+    a, v = _ints(a, "argsort")
+    if a.ndim != 1:
+        raise XArrayError("np.argsort of a non 1-D array")
+    return XArray((len(v),), sorted(range(len(v)), key=lambda i: (v[i], i)))
+
+
+def _np_sort(a, axis=-1, **kw):
+    a, v = _ints(a, "sort")
+    if a.ndim != 1:
+        raise XArrayError("np.sort of a non 1-D array")
+    return XArray((len(v),), sorted(v))
+
+
+def _np_unique(a, **kw):
+    if kw:
+        raise XArrayError("np.unique with options")
+    a, v = _ints(a, "unique")
+    u = sorted(set(v))
+    return XArray((len(u),), u)
+
+
+def _np_searchsorted(a, v, side="left", sorter=None):
+    """exact numpy semantics, including the undefined-but-deterministic result for unsorted input
+    (binary search over the array as given / as permuted by `sorter`)"""
+    import bisect
+
+    a, av = _ints(a, "searchsorted")
+    if sorter is not None:
+        _, sv = _ints(sorter, "searchsorted")
+        av = [av[i] for i in sv]
+    scalar = _is_num(v)
+    q, qv = _ints([v] if scalar else v, "searchsorted")
+    f = bisect.bisect_left if side == "left" else bisect.bisect_right
+    res = [f(av, x) for x in qv]
+    return res[0] if scalar else XArray(q.shape, res)
+
+
+def _np_broadcast_to(a, shape, **kw):
+    if isinstance(shape, (int, Fraction)):
+        shape = (int(shape),)
+    shape = tuple(int(s) for s in shape)
+    a = XArray.from_nested(a) if not _is_num(a) else XArray((), [exact(a)])
+    return a + XArray.full(shape, Q(0))
+
+
+def _np_full(shape, value, dtype=None, **kw):
+    if isinstance(shape, (int, Fraction)):
+        shape = (int(shape),)
+    return XArray.full(tuple(int(x) for x in shape), exact(value))
+
+
+_NP_FUNCS.update(full=_np_full, argsort=_np_argsort, sort=_np_sort, unique=_np_unique, searchsorted=_np_searchsorted, broadcast_to=_np_broadcast_to)
 
 
 def _np_swapaxes(a, i, j):
